@@ -70,6 +70,8 @@ func c19Consts(r *core.Rng) []constSpec {
 		{name: "CZ", v: vint(0)},
 		{name: "K9", v: vint(int64(9 + r.Intn(90)))},
 		{name: "C_9A", v: &val{kind: "str", s: "nine"}},
+		{name: "K10", v: vint(int64(10 + r.Intn(90)))},
+		{name: "V0", v: &val{kind: "bool", i: 1}},
 		{name: "CF", raw: "1.5"},
 		{name: "CFI", raw: "2.0"},
 		{name: "CS", v: &val{kind: "str", s: "const"}},
